@@ -448,6 +448,36 @@ func rapidCheck(t *testing.T, check string, checks int, prop func(*rapid.T)) {
 	rapid.Check(t, prop)
 }
 
+var (
+	curMu sync.Mutex
+	cur   struct {
+		c      *C
+		script any
+		sig    string
+	}
+)
+
+// dumpCurrent records the script running under a HangGuard as a failure (used
+// when the heap guard trips: runaway allocation is how non-termination shows
+// first for code that builds data while it spins).
+func dumpCurrent(why string) {
+	curMu.Lock()
+	c, script, sig := cur.c, cur.script, cur.sig
+	curMu.Unlock()
+	if c == nil {
+		return
+	}
+	f := Failf(sig, "%s", why)
+	if c.IsKnown(sig) {
+		c.Report(f, script)
+		return
+	}
+	c.dump(f, script)
+	c.mu.Lock()
+	c.st.Violations = append(c.st.Violations, Violation{Sig: f.Sig, Msg: f.Msg})
+	c.mu.Unlock()
+}
+
 // HeapGuard starts a goroutine that aborts the process (exit 3, after calling
 // onTrip) when the Go heap exceeds limit bytes.
 func HeapGuard(limit uint64, onTrip func()) {
@@ -457,6 +487,7 @@ func HeapGuard(limit uint64, onTrip func()) {
 			time.Sleep(200 * time.Millisecond)
 			runtime.ReadMemStats(&ms)
 			if ms.HeapAlloc > limit {
+				dumpCurrent(fmt.Sprintf("runaway memory use (heap %d MiB) while the case was running", ms.HeapAlloc>>20))
 				if onTrip != nil {
 					onTrip()
 				}
@@ -525,6 +556,14 @@ func Main(m *testing.M) {
 // goroutine cannot be stopped any other way).  The driver then confirms the
 // hang by replaying the dump in a fresh process.
 func (c *C) HangGuard(d time.Duration, script any, sig string, fn func()) {
+	curMu.Lock()
+	cur.c, cur.script, cur.sig = c, script, sig
+	curMu.Unlock()
+	defer func() {
+		curMu.Lock()
+		cur.c = nil
+		curMu.Unlock()
+	}()
 	ok, stacks := WithWatchdog(d, fn)
 	if ok {
 		return
